@@ -114,6 +114,12 @@ def binary_programs(seed, n, kinds=("fermionic", "abelian"), syms=gen.SYMS, tids
         inputs["y"] = y
         for op in ("add", "sub", "mul"):
             steps.append({"op": op, "in": ["x", "y"], "out": [f"e_{op}"], "args": {}})
+        # scaling a leg by a block vector that misses one of its charges (e.g. singular values after a truncation)
+        from .algebra import vector_desc
+        dax = rng.randrange(rank)
+        inputs["v"] = vector_desc(rng, sym, ix=x["ix"][dax], drop=True, start=2, dtype=x["dtype"])
+        for ent in ("method", "symmray", "autoray"):
+            steps.append({"op": "multiply_diagonal", "in": ["x", "v"], "out": [f"md_{ent[0]}"], "args": {"axis": dax}, "entry": ent})
         steps.append({"op": "allclose", "in": ["x", "y"], "out": ["ac"], "args": {}})
         steps.append({"op": "to_dense", "in": ["x"], "out": ["dn"], "args": {}})
         steps.append({"op": "norm", "in": ["x"], "out": ["nm"], "args": {}})
